@@ -1947,7 +1947,8 @@ class UTPM(Ring, RawAlgorithmsMixIn):
         import algopy.exact_interpolation as exint
         d = y.data.shape[0]-1
         Gamma, rays = exint.generate_Gamma_and_rays(N,d)
-        tmp = numpy.dot(Gamma,y.data[d])
+        # contract with the ray axis (the first axis of y.data[d]), whatever the rank of the function value
+        tmp = numpy.tensordot(Gamma, y.data[d], axes=(1,0))
 
         if as_full_matrix == False:
             return tmp
